@@ -9,6 +9,15 @@ Local Arguments Z.add : simpl never.
 Local Arguments Z.sub : simpl never.
 Local Arguments Z.mul : simpl never.
 
+(* the frames A puts on the wire, each with the network's time at the step that emitted it *)
+Definition newtx (s s' : net) : list (Z * frame) := map (fun f => (clk s, f)) (skipn (length (wab s)) (wab s')).
+Fixpoint tlog (j : nat) (s : net) : list (Z * frame) :=
+  match j with O => [] | S j' => newtx s (step s) ++ tlog j' (step s) end.
+Lemma newtx_same s s' : wab s' = wab s -> newtx s s' = [].
+Proof. intros E. unfold newtx. rewrite E, skipn_all. reflexivity. Qed.
+Lemma newtx_snoc s s' l : wab s' = wab s ++ l -> newtx s s' = map (fun f => (clk s, f)) l.
+Proof. intros E. unfold newtx. rewrite E, skipn_app, skipn_all, Nat.sub_diag. reflexivity. Qed.
+
 Section BamLoop.
   Variables (prio sa dp pf : Z) (p : list Z) (t0 : Z) (A0 B0 : node).
   Hypothesis Hprio : 0 <= prio < 8.
@@ -159,15 +168,15 @@ Section BamLoop.
     clk s = t0 /\ envs s /\ qa s = [] /\ qb s = [bamf] /\ n_snd (na s) = [(h, sbB (t0 + iv) 0)] /\ n_rcv (nb s) = [] /\
     evb s = [] /\ wab s = [bamf].
   Definition ShWait (k : nat) (s : net) : Prop :=
-    exists c, clk s = c /\ 0 < c /\ envs s /\ qa s = [] /\ qb s = [] /\ (k < np)%nat /\
+    exists c, clk s = c /\ (0 < c /\ c = t0 + Z.of_nat k * iv) /\ envs s /\ qa s = [] /\ qb s = [] /\ (k < np)%nat /\
       n_snd (na s) = [(h, sbB (c + iv) (Z.of_nat k))] /\ n_rcv (nb s) = [(h, rbB (c + tp21_T1) (segs p k))] /\
       evb s = [] /\ wab s = bamf :: dtfs sa G p 0 k.
   Definition ShDue (k : nat) (s : net) : Prop :=
-    exists c, clk s = c /\ 0 < c - iv /\ envs s /\ qa s = [] /\ qb s = [] /\ (k < np)%nat /\
+    exists c, clk s = c /\ (0 < c - iv /\ c = t0 + Z.of_nat (S k) * iv) /\ envs s /\ qa s = [] /\ qb s = [] /\ (k < np)%nat /\
       n_snd (na s) = [(h, sbB c (Z.of_nat k))] /\ n_rcv (nb s) = [(h, rbB (c - iv + tp21_T1) (segs p k))] /\
       evb s = [] /\ wab s = bamf :: dtfs sa G p 0 k.
   Definition ShFly (k : nat) (s : net) : Prop :=
-    exists c, clk s = c /\ 0 < c - iv /\ envs s /\ qa s = [] /\ qb s = [dtf sa G p k] /\ (k < np)%nat /\
+    exists c, clk s = c /\ (0 < c - iv /\ c = t0 + Z.of_nat (S k) * iv) /\ envs s /\ qa s = [] /\ qb s = [dtf sa G p k] /\ (k < np)%nat /\
       n_snd (na s) = (if Z.of_nat k + 1 <? num then [(h, sbB (c + iv) (Z.of_nat k + 1))] else []) /\
       n_rcv (nb s) = [(h, rbB (c - iv + tp21_T1) (segs p k))] /\
       evb s = [] /\ wab s = bamf :: dtfs sa G p 0 (S k).
@@ -187,7 +196,7 @@ Section BamLoop.
 
   Lemma B1_wait k s : ShWait k s -> ShDue k (step s).
   Proof.
-    intros (c & Hc & Hc0 & (Ea & Eb) & Hqa & Hqb & Hk & Hs & Hr & Hev & Hw).
+    intros (c & Hc & (Hc0 & Hct) & (Ea & Eb) & Hqa & Hqb & Hk & Hs & Hr & Hev & Hw).
     rewrite (step_idle s) by assumption. rewrite Hc.
     destruct Eb as (Bs & Bt & Bsub & Bcas).
     rewrite (jobA_wait (na s) c (c + iv) (Z.of_nat k) Ea Hs) by (unfold tp21_T1 in *; lia).
@@ -195,7 +204,7 @@ Section BamLoop.
     cbn [txs flat_map evs filter sleep_of andb]. rewrite !Z.eqb_refl. cbn [andb].
     assert (Hdt : Z.max 0 (Z.min (c + iv - c) (c + tp21_T1 - c)) = iv) by lia. rewrite Hdt.
     exists (c + iv). cbn [na nb qa qb clk evb wab].
-    split; [reflexivity|]. split; [lia|]. split; [split; [exact Ea|repeat split; assumption]|].
+    split; [reflexivity|]. split; [split; [lia|rewrite Hct, Nat2Z.inj_succ; ring]|]. split; [split; [exact Ea|repeat split; assumption]|].
     split; [reflexivity|]. split; [reflexivity|]. split; [exact Hk|]. split; [exact Hs|].
     split; [rewrite Hr; replace (c + iv - iv + tp21_T1) with (c + tp21_T1) by lia; reflexivity|].
     split; [rewrite Hev; reflexivity|rewrite Hw, app_nil_r; reflexivity].
@@ -203,14 +212,14 @@ Section BamLoop.
 
   Lemma B2_due k s : ShDue k s -> ShFly k (step s).
   Proof.
-    intros (c & Hc & Hc0 & (Ea & Eb) & Hqa & Hqb & Hk & Hs & Hr & Hev & Hw).
+    intros (c & Hc & (Hc0 & Hct) & (Ea & Eb) & Hqa & Hqb & Hk & Hs & Hr & Hev & Hw).
     rewrite (step_idle s) by assumption. rewrite Hc.
     destruct Eb as (Bs & Bt & Bsub & Bcas).
     destruct (jobA_send (na s) c c (Z.of_nat k) Ea Hs) as (ra & Hja); [lia|unfold num; lia|]. rewrite Hja.
     rewrite (jobB_wait (nb s) c (c - iv + tp21_T1) (segs p k) Bs Bt Hr) by (unfold tp21_T1 in *; lia).
     cbn [txs flat_map evs filter app andb].
     exists c. cbn [na nb qa qb clk evb wab].
-    split; [lia|]. split; [exact Hc0|]. split; [split; [exact Ea|repeat split; assumption]|].
+    split; [lia|]. split; [split; [exact Hc0|exact Hct]|]. split; [split; [exact Ea|repeat split; assumption]|].
     split; [reflexivity|]. split; [reflexivity|]. split; [exact Hk|]. split; [reflexivity|]. split; [exact Hr|].
     split; [rewrite Hev; reflexivity|]. rewrite Hw. cbn [app]. f_equal.
     change (dtfs sa G p 0 k ++ [tp21_dt sa G (dt_payload p (Z.of_nat k))]) with (dtfs sa G p 0 k ++ [dtf sa G p (0 + k)]).
@@ -219,7 +228,7 @@ Section BamLoop.
 
   Lemma B3_fly k s : ShFly k s -> if (S k =? np)%nat then ShDoneB (step s) else ShWait (S k) (step s).
   Proof.
-    intros (c & Hc & Hc0 & (Ea & Eb) & Hqa & Hqb & Hk & Hs & Hr & Hev & Hw).
+    intros (c & Hc & (Hc0 & Hct) & (Ea & Eb) & Hqa & Hqb & Hk & Hs & Hr & Hev & Hw).
     rewrite (step_b s _ _ Hqb). rewrite Hc.
     pose proof (hB_bdt (nb s) c (c - iv + tp21_T1) k Eb Hr Hk) as Hh.
     destruct (Nat.eqb_spec (S k) np) as [E|NE].
@@ -234,7 +243,7 @@ Section BamLoop.
     - rewrite Hh. cbn [txs flat_map evs filter app].
       assert ((Z.of_nat k + 1 <? num) = true) as Hlt by (unfold num; lia). rewrite Hlt in Hs.
       exists c. cbn [na nb qa qb clk evb wab].
-      split; [reflexivity|]. split; [lia|]. split; [split; [exact Ea|exact Eb]|].
+      split; [reflexivity|]. split; [split; [lia|exact Hct]|]. split; [split; [exact Ea|exact Eb]|].
       split; [rewrite Hqa; reflexivity|]. split; [reflexivity|]. split; [lia|].
       split; [rewrite Hs; replace (Z.of_nat (S k)) with (Z.of_nat k + 1) by lia; reflexivity|].
       split; [reflexivity|]. split; [rewrite Hev; reflexivity|exact Hw].
@@ -268,6 +277,56 @@ Section BamLoop.
   Proof.
     apply breaches_step. apply (wait_reaches (np - 0)%nat 0%nat); [reflexivity|]. apply B0_bam. apply start_is_bam.
   Qed.
+
+  (* ---- the same run with the time of every frame A puts on the wire *)
+  Definition treaches (s : net) (L : list (Z * frame)) : Prop := exists j, ShDoneB (steps j s) /\ tlog j s = L.
+  Lemma treaches_step s L : treaches (step s) L -> treaches s (newtx s (step s) ++ L).
+  Proof. intros (j & H & E). exists (S j). split; [exact H|]. cbn [tlog]. rewrite E. reflexivity. Qed.
+  Lemma wait_w k s : ShWait k s -> wab s = bamf :: dtfs sa G p 0 k.
+  Proof. intros (c & _ & _ & _ & _ & _ & _ & _ & _ & _ & Hw). exact Hw. Qed.
+  Lemma due_w k s : ShDue k s -> wab s = bamf :: dtfs sa G p 0 k /\ clk s = t0 + Z.of_nat (S k) * iv.
+  Proof. intros (c & Hc & (_ & Hct) & _ & _ & _ & _ & _ & _ & _ & Hw). split; [exact Hw|rewrite Hc; exact Hct]. Qed.
+  Lemma fly_w k s : ShFly k s -> wab s = bamf :: dtfs sa G p 0 (S k).
+  Proof. intros (c & _ & _ & _ & _ & _ & _ & _ & _ & _ & Hw). exact Hw. Qed.
+  Lemma done_w s : ShDoneB s -> wab s = bamf :: dtfs sa G p 0 np.
+  Proof. intros (_ & _ & _ & _ & _ & _ & _ & Hw). exact Hw. Qed.
+
+  Definition stamp (k : nat) : Z := t0 + Z.of_nat (S k) * iv.
+  Definition tail_log (k : nat) : list (Z * frame) := map (fun i => (stamp i, dtf sa G p i)) (seq k (np - k)).
+
+  Lemma wait_treaches : forall r k s, (np - k = r)%nat -> ShWait k s -> treaches s (tail_log k).
+  Proof.
+    induction r as [r IH] using lt_wf_ind. intros k s Hr Hsh.
+    assert (Hk : (k < np)%nat) by (destruct Hsh as (c & _ & _ & _ & _ & _ & Hk & _); exact Hk).
+    pose proof (B1_wait k s Hsh) as Hd. pose proof (B2_due k _ Hd) as Hf. pose proof (B3_fly k _ Hf) as Hn.
+    pose proof (wait_w k s Hsh) as W0. destruct (due_w k _ Hd) as (W1 & C1). pose proof (fly_w k _ Hf) as W2.
+    assert (W3 : wab (step (step (step s))) = wab (step (step s))).
+    { rewrite W2. destruct (S k =? np)%nat eqn:E.
+      - apply Nat.eqb_eq in E. rewrite (done_w _ Hn), E. reflexivity.
+      - rewrite (wait_w _ _ Hn). reflexivity. }
+    assert (Hsnoc : dtfs sa G p 0 (S k) = dtfs sa G p 0 k ++ [dtf sa G p k]).
+    { symmetry. change (dtf sa G p k) with (dtf sa G p (0 + k)). apply dtfs_snoc. }
+    assert (Hlog : tail_log k = newtx s (step s) ++ newtx (step s) (step (step s)) ++
+                                newtx (step (step s)) (step (step (step s))) ++ tail_log (S k)).
+    { rewrite (newtx_same s) by (rewrite W0, W1; reflexivity).
+      rewrite (newtx_snoc (step s) _ [dtf sa G p k]) by (rewrite W1, W2, Hsnoc; reflexivity).
+      rewrite (newtx_same (step (step s))) by exact W3.
+      rewrite C1. unfold tail_log. replace (np - k)%nat with (S (np - S k)) by lia. reflexivity. }
+    rewrite Hlog. apply treaches_step. apply treaches_step. apply treaches_step.
+    destruct (S k =? np)%nat eqn:E.
+    - apply Nat.eqb_eq in E. exists 0%nat. split; [exact Hn|]. unfold tail_log. rewrite E, Nat.sub_diag. reflexivity.
+    - apply Nat.eqb_neq in E. apply (IH (np - S k)%nat ltac:(lia) (S k)); [reflexivity|exact Hn].
+  Qed.
+
+  Theorem bam_closed_loop_timed : treaches (net_send (net0 A0 B0 t0) dp pf 255 prio sa p) (tail_log 0).
+  Proof.
+    pose proof start_is_bam as H0. pose proof (B0_bam _ H0) as H1.
+    replace (tail_log 0) with (newtx (net_send (net0 A0 B0 t0) dp pf 255 prio sa p)
+                                     (step (net_send (net0 A0 B0 t0) dp pf 255 prio sa p)) ++ tail_log 0).
+    - apply treaches_step. apply (wait_treaches (np - 0)%nat 0%nat); [reflexivity|exact H1].
+    - rewrite newtx_same; [reflexivity|].
+      rewrite (wait_w _ _ H1). destruct H0 as (_ & _ & _ & _ & _ & _ & _ & Hw). rewrite Hw. reflexivity.
+  Qed.
 End BamLoop.
 
 (* T01.9: broadcast, closed loop, stated without the proof's vocabulary *)
@@ -287,6 +346,31 @@ Proof.
   destruct (bam_closed_loop prio sa dp pf p t0 A0 B0 H1 H2 H3 H4 H5 H6 H7 HA HB) as (j & H). exists j. exact H.
 Qed.
 
+(* T09.17: the same run with its times: packet k leaves at t0 + (k+1)·iv — consecutive packets of the broadcast are exactly
+   the configured interval apart, and the first follows the announcement by one interval *)
+Theorem bam_closed_loop_paced prio sa dp pf p t0 A0 B0 :
+  0 <= prio < 8 -> 0 <= sa < 255 -> 0 <= pf < 240 -> 0 <= dp < 2 -> 8 < len p <= 1785 -> 0 < t0 ->
+  0 < n_bam_iv A0 < tp21_T1 ->
+  n_snd A0 = [] /\ n_rcv A0 = [] /\ n_timers A0 = [] ->
+  n_snd B0 = [] /\ n_rcv B0 = [] /\ n_timers B0 = [] ->
+  let pv := dp * 65536 + pf * 256 in
+  let iv := n_bam_iv A0 in
+  let s0 := net_send (net0 A0 B0 t0) dp pf 255 prio sa p in
+  wab s0 = [tp21_bam sa prio pv (len p) (Z.of_nat (npk (length p)))] /\ clk s0 = t0 /\
+  exists j, (qa (steps j s0) = [] /\ qb (steps j s0) = [] /\ n_snd (na (steps j s0)) = [] /\ n_rcv (nb (steps j s0)) = [] /\
+             evb (steps j s0) = deliveries B0 7 pv sa addr_GLOBAL p) /\
+    tlog j s0 = map (fun k => (t0 + Z.of_nat (S k) * iv, tp21_dt sa addr_GLOBAL (dt_payload p (Z.of_nat k)))) (seq 0 (npk (length p))).
+Proof.
+  intros H1 H2 H3 H4 H5 H6 H7 HA HB pv iv s0.
+  pose proof (start_is_bam prio sa dp pf p t0 A0 B0) as HS.
+  repeat match type of HS with ?P -> _ => specialize (HS ltac:(assumption)) end.
+  destruct HS as (Hc & _ & _ & _ & _ & _ & _ & Hw).
+  split; [exact Hw|]. split; [exact Hc|].
+  destruct (bam_closed_loop_timed prio sa dp pf p t0 A0 B0 H1 H2 H3 H4 H5 H6 H7 HA HB) as (j & Hd & Hl). exists j.
+  split; [|unfold s0; rewrite Hl; unfold tail_log; rewrite Nat.sub_0_r; reflexivity].
+  destruct Hd as (Q1 & Q2 & Q3 & Q4 & Q5 & Q6 & Q7 & _). repeat split; assumption.
+Qed.
+
 Example bam_closed_loop_instance :
   let A := init_node 3 None None in
   let B := subscribe (init_node 2 None None) 7 FNone in
@@ -294,3 +378,10 @@ Example bam_closed_loop_instance :
   let s := steps 10 (net_send (net0 A B 1000) 0 239 255 6 128 p) in
   quiet s = true /\ evb s = [OCb 7 7 61184 128 p] /\ length (wab s) = 4%nat /\ wba s = [] /\ clk s = 1000 + 3 * 50000.
 Proof. vm_compute. repeat split. Qed.
+
+Example bam_closed_loop_times :
+  let A := init_node 3 None None in
+  let B := subscribe (init_node 2 None None) 7 FNone in
+  let p := map Z.of_nat (seq 1 20) in
+  map fst (tlog 10 (net_send (net0 A B 1000) 0 239 255 6 128 p)) = [51000; 101000; 151000].
+Proof. vm_compute. reflexivity. Qed.
